@@ -1,6 +1,7 @@
 """C06 - Point / expression algebra is a faithful vector-space and inner-product calculus."""
 import json, os, random
 from core import *
+from core import verdicts as core_verdicts
 
 PID = "C06"
 
@@ -49,12 +50,7 @@ def validate(res, traces, wd, name="traces"):
         write_ndjson(path, chunk)
         r = tlc("AlgebraTrace", TRACE_CFG, wd, env=dict(TRACE_FILE=path))
         res.add_tlc("AlgebraTrace", r)
-        verdicts = {}
-        for rec in split_prints(r["out"]):
-            if isinstance(rec, list) and rec and rec[0] == "V":
-                verdicts[rec[1]] = rec[2]["set"]
-        if len(verdicts) != len(chunk):
-            raise Machinery("trace validation gave %d verdicts for %d traces" % (len(verdicts), len(chunk)))
+        verdicts = core_verdicts(r["out"], len(chunk))
         for i, t in enumerate(chunk):
             out.append((t, verdicts[i + 1]))
         os.remove(path)
